@@ -227,7 +227,7 @@ func (v *refView) proofPositions(targets []int) []uint64 {
 // refShape draws a forest shape: n leaves ever added (1..maxN), any alive subset
 // (case split), leaf hashes Atom(id) with symbolic pairwise distinct ids.
 func refShape(maxN int) *refForest {
-	n := verifChoose("n", 1, maxN)
+	n := verifChoose("n", verifParam("minN", 0), maxN)
 	f := &refForest{}
 	for i := 0; i < n; i++ {
 		alive := verifChoose("alive", 0, 1) == 1
@@ -274,5 +274,110 @@ func (f *refForest) stump() Stump {
 func refCopyHashes(h []Hash) []Hash {
 	out := make([]Hash, len(h))
 	copy(out, h)
+	return out
+}
+
+// ---- honest blocks ----
+
+type refBlockT struct {
+	delSlots []int    // deleted leaf slots, in the (case-split) order the caller presents them
+	targets  []uint64 // their positions, same order
+	hashes   []Hash   // their hashes, same order
+	proof    Proof    // targets + canonical proof hashes from RM
+	adds     []Hash
+	tIdx     []int // node indexes of the targets in the pre-block view
+}
+
+// refPickSubset picks an ordered selection of up to max distinct elements of pool (any subset, any order).
+func refPickSubset(name string, pool []int, max int) []int {
+	k := verifChoose(name+".k", 0, refMin(max, len(pool)))
+	rest := make([]int, len(pool))
+	copy(rest, pool)
+	var out []int
+	for i := 0; i < k; i++ {
+		j := verifChoose(name+".pick", 0, len(rest)-1)
+		out = append(out, rest[j])
+		rest = append(rest[:j], rest[j+1:]...)
+	}
+	return out
+}
+
+func refMin(a, b int) int {
+	if a < b {
+		return a
+	}
+	return b
+}
+
+// refBlock draws an honest block for the current state: a deletion selection among live leaves in
+// any order with RM's canonical proof, and 0..maxAdd fresh additions.
+func (f *refForest) refBlock(v *refView, maxDel, maxAdd int) *refBlockT {
+	b := &refBlockT{}
+	b.delSlots = refPickSubset("del", f.liveSlots(), maxDel)
+	for _, s := range b.delSlots {
+		x := v.leafIdx[s]
+		b.tIdx = append(b.tIdx, x)
+		b.targets = append(b.targets, v.nodes[x].pos)
+		b.hashes = append(b.hashes, f.leaves[s].hash)
+	}
+	b.proof = Proof{Targets: b.targets, Proof: v.proofHashes(b.tIdx)}
+	na := verifChoose("adds", 0, maxAdd)
+	for i := 0; i < na; i++ {
+		h := verifLeafHash("add")
+		for j := range f.leaves {
+			if f.leaves[j].alive {
+				verifAssume(h != f.leaves[j].hash)
+			}
+		}
+		for j := range b.adds {
+			verifAssume(h != b.adds[j])
+		}
+		b.adds = append(b.adds, h)
+	}
+	return b
+}
+
+// apply returns the state after the block.
+func (f *refForest) apply(b *refBlockT) *refForest {
+	g := &refForest{leaves: make([]refLeaf, len(f.leaves))}
+	copy(g.leaves, f.leaves)
+	for _, s := range b.delSlots {
+		g.leaves[s].alive = false
+	}
+	for _, h := range b.adds {
+		g.leaves = append(g.leaves, refLeaf{hash: h, alive: true})
+	}
+	return g
+}
+
+func (f *refForest) deadMask(b *refBlockT) []bool {
+	dead := make([]bool, len(f.leaves))
+	for _, s := range b.delSlots {
+		dead[s] = true
+	}
+	return dead
+}
+
+// refDestroyed lists, in order of destruction and in post-block coordinates, the positions of the
+// empty roots that `adds` additions overwrite.  emptyRoot[i] says whether tree i (biggest first) of
+// the n-leaf forest is empty after the block's deletions.
+func refDestroyed(n uint64, emptyRoot []bool, adds int) []uint64 {
+	rows := refRows(n + uint64(adds))
+	stack := make([]bool, len(emptyRoot))
+	copy(stack, emptyRoot)
+	var out []uint64
+	m := n
+	for i := 0; i < adds; i++ {
+		for h := uint8(0); (m>>h)&1 == 1; h++ {
+			e := stack[len(stack)-1]
+			stack = stack[:len(stack)-1]
+			if e {
+				base := m &^ ((uint64(2) << h) - 1)
+				out = append(out, refStart(h, rows)+(base>>h))
+			}
+		}
+		stack = append(stack, false)
+		m++
+	}
 	return out
 }
